@@ -18,12 +18,14 @@ type session struct {
 	pendingAttach map[int]bool
 	lateAttach   map[int]int // client -> step at which it first attaches
 	faultsLeft   int
+	rejoining    map[int]bool
+	jumped       bool
 }
 
 func (rc *RunCtx) sess() *session {
 	s, _ := rc.State["session"].(*session)
 	if s == nil {
-		s = &session{offlineUntil: map[int]int{}, pendingAttach: map[int]bool{}, lateAttach: map[int]int{}, syncCalls: 8}
+		s = &session{offlineUntil: map[int]int{}, pendingAttach: map[int]bool{}, lateAttach: map[int]int{}, syncCalls: 8, rejoining: map[int]bool{}}
 		rc.State["session"] = s
 	}
 	return s
@@ -43,6 +45,9 @@ func (rc *RunCtx) attachOpts(c int) *AttachOp {
 	}
 	if x["local_nogc_pct"] > 0 && rc.R.IntN(100) < x["local_nogc_pct"] {
 		op.LocalNoGC = true
+	}
+	if x["wire_nogc_pct"] > 0 && rc.R.IntN(100) < x["wire_nogc_pct"] {
+		op.WireNoGC = true
 	}
 	if x["initial_root_pct"] > 0 && rc.R.IntN(100) < x["initial_root_pct"] {
 		op.InitialRoot = `{"init":"` + rc.G.uniq(c) + `"}`
@@ -70,6 +75,12 @@ func SessionNext(rc *RunCtx) *Step {
 				continue
 			}
 			s.enqueueJoin(rc, c)
+			if k == 0 && cfg.Extra["gcfree_doc"] > 0 {
+				// a document that only ever uses commutative types: the one
+				// and only creation of its counters
+				s.queue = append(s.queue, Step{Op: "update", C: c, Edits: []Edit{
+					{K: "o.new", Key: "c0", T: "cnt", I: 1}, {K: "o.new", Key: "l0", T: "lcnt", I: 1}}}, Step{Op: "sync", C: c})
+			}
 		}
 	}
 	if len(s.queue) > 0 {
@@ -103,6 +114,13 @@ func SessionNext(rc *RunCtx) *Step {
 		if _, late := s.lateAttach[c]; late {
 			continue
 		}
+		if _, ex := rc.Excluded[c]; ex {
+			continue
+		}
+		if s.rejoining[c] {
+			// queued newclient/activate/attach has run by now
+			delete(s.rejoining, c)
+		}
 		switch kind {
 		case "update":
 			if !attached {
@@ -116,7 +134,13 @@ func SessionNext(rc *RunCtx) *Step {
 					st.Edits = append(st.Edits, *rc.G.GenPresence(c))
 					continue
 				}
-				if e := rc.G.GenEdit(c, root); e != nil {
+				var e *Edit
+				if sd.Opts.WireNoGC || cfg.Extra["gcfree_doc"] > 0 {
+					e = rc.G.GenEditNoTombstones(c, root)
+				} else {
+					e = rc.G.GenEdit(c, root)
+				}
+				if e != nil {
 					st.Edits = append(st.Edits, *e)
 				}
 			}
@@ -172,6 +196,13 @@ func SessionNext(rc *RunCtx) *Step {
 			rc.W.probe("client_vanished")
 			s.queue = append(s.queue, Step{Op: "activate", C: c}, Step{Op: "attach", C: c, Opts: rc.attachOpts(c)})
 			return &Step{Op: "newclient", C: c}
+		case "hk_deactivate":
+			// a long silence, then the housekeeping task: live-but-silent
+			// clients are deactivated by the server
+			s.queue = append(s.queue, Step{Op: "housekeeping", Flag: "deactivate"})
+			return &Step{Op: "sleep", Dur: "25h"}
+		case "hk_compact":
+			return &Step{Op: "housekeeping", Flag: "compact"}
 		case "bg":
 			if len(rc.W.Parked()) == 0 {
 				continue
